@@ -207,8 +207,9 @@ class Repo:
         for (p, rel, src, tree) in parsed:
             # N-inline: private helpers that are newer than the rules are analysed as part of their callers (spverif/inline.py)
             if not os.environ.get("SPVERIF_NO_INLINE"):
-                from .inline import normalise, propagate_aliases
+                from .inline import normalise, positive_guards, propagate_aliases
                 n_inl = normalise(tree, rel)
+                positive_guards(tree)
                 if n_inl:
                     self.inlined = getattr(self, "inlined", 0) + n_inl
                 # N-alias: a local name for a field that only __init__ writes is that field
